@@ -296,9 +296,12 @@ func (g *Gen) stdSpecial(st *State, name string, call *ssa.CallCommon, result ss
 	case "errors.New", "fmt.Errorf":
 		r := g.newSym("newerr", "Int")
 		g.assume(st, fmt.Sprintf("(not (= %s 0))", r))
+		g.notSentinel(st, r) // a newly created error value is none of the package-level sentinels
 		g.setResult(result, Val{T: r, Kind: "err"})
 		g.trustedUsed[name+": returns a non-nil error; no panic"] = true
 		return true
+	case "io.Copy", "io.CopyN":
+		return g.ioCopy(st, name, call, result)
 	case "strings.ContainsRune":
 		if c, ok := call.Args[0].(*ssa.Const); ok {
 			str := constant.StringVal(c.Value)
@@ -373,6 +376,9 @@ func (g *Gen) callCommon(fn *ssa.Function, st *State, call *ssa.CallCommon, resu
 	if call.IsInvoke() {
 		args = append([]Val{g.val(st, call.Value)}, args...)
 		dispName = call.Method.Name()
+		if cc == nil && g.sinkInvoke(st, call, args, result) {
+			return
+		}
 	}
 	if callee != nil {
 		dispName = calleeKey(callee)
@@ -469,6 +475,10 @@ func (g *Gen) callCommon(fn *ssa.Function, st *State, call *ssa.CallCommon, resu
 		res = g.symFor(rt.At(0).Type(), "ret_"+dispName, st)
 	default:
 		res = g.symFor(rt, "ret_"+dispName, st)
+	}
+	if cc != nil && cc.Trusted && !strings.HasPrefix(cc.Pkg, modulePath) && !strings.HasPrefix(cc.Fn, modulePath) {
+		// assumption (listed): standard-library calls do not return this module's sentinel errors
+		g.foreignErrs(st, res)
 	}
 	{
 		argRefs := map[string]bool{}
@@ -624,8 +634,16 @@ func (g *Gen) havocByContract(st *State, cc *Contract, env map[string]Val, args 
 		g.havocMaps(st)
 		g.havocAllGhost(st)
 		havocArgCells()
-		for k := range st.globs {
-			delete(st.globs, k)
+		for _, k := range sortedKeys(g.globInit) {
+			if v := g.globInit[k]; v.Kind == "int" || v.Kind == "bool" || v.Kind == "opaque" {
+				if v.Ty != nil {
+					st.globs[k] = g.symFor(v.Ty, k+"_c", st) // a callee without contract may assign package variables
+				} else if v.Kind == "bool" {
+					st.globs[k] = Val{T: g.newSym(k+"_c", "Bool"), Kind: "bool"}
+				} else {
+					st.globs[k] = Val{T: g.newSym(k+"_c", "Int"), Kind: v.Kind}
+				}
+			}
 		}
 		return
 	}
